@@ -931,3 +931,82 @@ func itoa(i int) string {
 	}
 	return string(b)
 }
+
+// ReturnResults returns the values a Return instruction yields. In functions with named results
+// and defers go/ssa spills results: `return a, b` becomes stores to the result allocs, RunDefers,
+// loads, Return — all in one block. For such returns the stored values are reported (when the
+// store precedes the RunDefers in the same block); otherwise the operand itself.
+func ReturnResults(ret *ssa.Return) []ssa.Value {
+	out := make([]ssa.Value, len(ret.Results))
+	b := ret.Block()
+	idx := InstrIndex(ret)
+	for i, r := range ret.Results {
+		out[i] = r
+		u, ok := r.(*ssa.UnOp)
+		if !ok || u.Op != token.MUL {
+			continue
+		}
+		al, ok := u.X.(*ssa.Alloc)
+		if !ok {
+			continue
+		}
+		// latest store to al in this block before the return
+		for j := idx - 1; j >= 0; j-- {
+			if st, ok := b.Instrs[j].(*ssa.Store); ok && st.Addr == ssa.Value(al) {
+				out[i] = st.Val
+				break
+			}
+		}
+	}
+	return out
+}
+
+// DynValues resolves the concrete values an interface-typed (or any) value may hold, following
+// fields module-wide, parameters to static call sites, and static module callees into their returns.
+// Leaves that are still interface-typed and unresolved are returned in `open`.
+func (p *Prog) DynValues(v ssa.Value) (concrete []ssa.Value, open []ssa.Value) {
+	seen := map[ssa.Value]bool{}
+	var walk func(v ssa.Value, depth int)
+	walk = func(v ssa.Value, depth int) {
+		for _, o := range Origins(v, OriginOpts{Prog: p, ThroughPar: true, FieldsModuleWide: true, Depth: 3}) {
+			if seen[o] {
+				continue
+			}
+			seen[o] = true
+			if IsNilConst(o) {
+				continue
+			}
+			var call *ssa.Call
+			idx := 0
+			switch x := o.(type) {
+			case *ssa.Call:
+				call = x
+			case *ssa.Extract:
+				call, _ = x.Tuple.(*ssa.Call)
+				idx = x.Index
+			}
+			if call != nil {
+				if f := StaticCallee(call); f != nil && f.Blocks != nil && f.Pkg != nil && IsModule(f.Pkg.Pkg) && depth < 4 {
+					if _, isIface := o.Type().Underlying().(*types.Interface); isIface {
+						EachInstr(f, func(_ *ssa.BasicBlock, _ int, in ssa.Instruction) {
+							if ret, ok := in.(*ssa.Return); ok {
+								rs := ReturnResults(ret)
+								if idx < len(rs) {
+									walk(rs[idx], depth+1)
+								}
+							}
+						})
+						continue
+					}
+				}
+			}
+			if _, isIface := o.Type().Underlying().(*types.Interface); isIface {
+				open = append(open, o)
+			} else {
+				concrete = append(concrete, o)
+			}
+		}
+	}
+	walk(v, 0)
+	return
+}
